@@ -22,7 +22,11 @@ Domain ==
   [ name    |-> {"ascii", "space-quote", "ctrl", "badutf8", "u2028", "long255", "dash", "glob", "dots", "utf8"},
     content |-> {"empty", "one", "small", "zero512k", "multi", "sparse", "zeros-odd", "repeat"},
     target  |-> {"rel", "abs", "nonutf8", "dangling", "long", "newline", "dot", "trailing"},
-    mode    |-> {"m644", "m000", "m755", "setuid", "setgid", "sticky", "all"},
+    mode    |-> {"m644", "m000", "m755", "m500", "setuid", "setgid", "sticky", "all"},
+    \* what a directory holds: "children" = entries of the table may be placed in it; the other classes are
+    \* directories NONE of whose children is restored (restore must still restore their own metadata):
+    \* empty, only an empty directory (itself a table entry with fill "empty"), only a socket
+    fill    |-> {"children", "empty", "only-empty-dir", "only-socket"},
     mtime   |-> {"epoch", "ns", "pre-epoch", "future", "one-ns", "min32"},
     xattr   |-> {"none", "text", "bin", "empty", "multi", "trusted", "big", "badname"},
     owner   |-> {"root", "user", "nobody"},
@@ -31,7 +35,7 @@ Domain ==
 \* which attributes an entry of a kind has
 Attrs(k) ==
   CASE k = "file"     -> {"name", "content", "mode", "mtime", "xattr", "owner"}
-    [] k = "dir"      -> {"name", "mode", "mtime", "xattr", "owner"}
+    [] k = "dir"      -> {"name", "mode", "mtime", "xattr", "owner", "fill"}
     [] k = "symlink"  -> {"name", "target", "mtime", "owner"}
     [] k = "fifo"     -> {"name", "mode", "mtime", "owner"}
     [] k \in {"chardev", "blockdev"} -> {"name", "rdev", "mode", "mtime", "owner"}
